@@ -649,6 +649,41 @@ def gen_abort_bu_program(rng):
     return p, steps, {'bu': {bu}}
 
 
+def gen_reorder_cycle_program(rng):
+    """Directed family for C07/C10: a root requires the tasks of a random DAG in an order unrelated to the DAG (so that the
+    topological order has to be repaired by several successive reorders while the DAG's own edges arrive), then one task
+    starts requiring a task that (transitively) requires it: the cycle has to be diagnosed on exactly that repaired order."""
+    p = Prog(); p.kind = 'inject'; p.exact_only = True
+    p.sources = [0]
+    n = rng.randint(3, 7)
+    ids = list(range(1, n + 1))
+    edges = [(i, j) for i in ids for j in ids if i < j and rng.random() < 0.45]
+    if not edges: edges = [(1, 2)]
+    # reachability (natural order is topological)
+    reach = {i: set() for i in ids}
+    for i in reversed(ids):
+        for (a, b) in edges:
+            if a == i: reach[i] |= {b} | reach[b]
+    u = rng.choice([i for i in ids if reach[i]])
+    v = rng.choice(sorted(reach[u]))
+    for i in ids:
+        body = ('T', ('a',))
+        outs = [b for (a, b) in edges if a == i]
+        rng.shuffle(outs)
+        for b in outs:
+            body = ('Q', b, rng.choice([0, 2]), body)
+        if i == v:
+            body = ('R', 0, 0, ('I', ('l', 2), ('Q', u, 0, body), body))
+        p.tasks[i] = body
+    order = ids[:]; rng.shuffle(order)
+    body = ('T', ('a',))
+    for i in reversed(order):
+        body = ('Q', i, rng.choice([0, 2]), body)
+    p.tasks[0] = body
+    steps = [['E', '0', '0'], ['S', '1', 'q', '0'], ['E', '0', '1'], ['S', '1', 'q', str(rng.choice([0, v, u]))], ['E', '0', '0'], ['S', '1', 'q', '0']]
+    return p, steps
+
+
 def gen_sibling_program(rng):
     """Directed family for C05: a top task requires several sibling chains (generators are reached TRANSITIVELY, at
     depth >= 2, so the hidden-dependency queries really walk the graph and leave work on their stack), reads the generated
